@@ -420,15 +420,13 @@ class SoWave(Obligation):
 # ------------------------------------------------------------------ integrand level
 
 def circle(mk):
-    """rational parametrisation of eta^2 + eta'^2 = 1, 0 < p < 1: eta increases, eta' decreases with p"""
-    p = mk('p')
-    return 2 * p / (1 + p * p), (1 - p * p) / (1 + p * p)
+    """a point (eta, eta') of the quarter circle eta^2 + eta'^2 = 1 (constraint stated in the domain): the
+    substitution eta' = sqrt(1 - eta^2) maps the first v-integral onto the first u-integral"""
+    return mk('eta1'), mk('eta1p')
 
 
 def jacobian(mk, e1, e1p):
-    """|d eta'/d eta| along the circle"""
-    if Mode.symbolic(mk):
-        return SymReal(T.neg(T.div(Df.d(term_of(e1p), 'p'), Df.d(term_of(e1), 'p'))))
+    """|d eta'/d eta| along the circle (implicit differentiation of eta^2 + eta'^2 = 1)"""
     return e1 / e1p
 
 
@@ -440,11 +438,8 @@ def kernel_domain(V, fam1=True, fam2=True):
     d = [T.ge(V('x'), T.ZERO), T.gt(V('tau'), T.ZERO), T.gt(V('eps'), T.ZERO),
          T.ge(V('x_prev'), T.ZERO), T.gt(V('tau_prev'), T.ZERO), T.gt(V('eps_prev'), T.ZERO)]
     if fam1:
-        p = V('p')
-        pp = T.mul(p, p)
-        e1 = T.div(T.mul(T.TWO, p), T.add(T.ONE, pp))
-        e1p = T.div(T.sub(T.ONE, pp), T.add(T.ONE, pp))
-        d += [T.gt(p, T.ZERO), T.lt(p, T.ONE)] + _inside(e1) + _inside(e1p)
+        e1, e1p = V('eta1'), V('eta1p')
+        d += _inside(e1) + _inside(e1p) + [T.eq(T.add(T.mul(e1, e1), T.mul(e1p, e1p)), T.ONE)]
     if fam2:
         d += _inside(V('eta')) + [T.gt(T.mul(V('eta'), V('eps')), T.const(TINY))]
     return d
@@ -494,7 +489,6 @@ class Kernel(Obligation):
                 out[w + ':' + k] = v
         if self.fam1:
             out['J'] = jacobian(mk, e1, e1p)
-            out['eta1'] = e1
         return out
 
     def domain(self, V):
@@ -508,23 +502,78 @@ class PdeFamily(Kernel):
         self._init('C18.pde.family%d' % fam,
                    'x>=0, tau>0, eps>0, the integration variable%s and the stale common block symbolic; 2x2 branches '
                    '(oscillatory or not) of usolution times 2x2 of vsolution'
-                   % (' (point on the circle eta^2+eta\'^2=1)' if fam == 1 else ''))
+                   % (' (a point of the circle eta^2+eta\'^2=1)' if fam == 1 else ''))
 
     def claims(self, cx):
         eps = cx.p('eps')
         un, vn = INTEGRANDS['u'][self.fam - 1], INTEGRANDS['v'][self.fam - 1]
+        U = lambda c: c['u:c_%s_1' % un] * c['u:P_%s_1' % un]
         if self.fam == 1:
-            U = lambda c: c['u:c_%s_1' % un] * c['u:P_%s_1' % un]
             W = lambda c: c['v:c_%s_1' % vn] * c['v:P_%s_1' % vn] * c['J']
         else:
-            U = lambda c: c['u:c_%s_1' % un] * c['u:P_%s_1' % un]
             W = lambda c: c['v:c_%s_1' % vn] * c['v:P_%s_1' % vn]
-        Ut, Uxx, Wt = cx.d(U, 'tau'), cx.d(U, 'x', 2), cx.d(W, 'tau')
-        w = congruence(cx, [Ut, Uxx, Wt, W(cx)])
+        Ut, Uxx, Wt, Wv = cx.d(U, 'tau'), cx.d(U, 'x', 2), cx.d(W, 'tau'), W(cx)
         tag = 'family %d: ' % self.fam
-        cx.zero(tag + 'eps*u_tau = u_xx + (v-u) for the weighted integrands', [eps * Ut, -Uxx, -W(cx)], when=w)
-        cx.zero(tag + 'v_tau = u - v for the weighted integrands', [Ut, Wt, W(cx)], when=w)
+        pde = [(tag + 'eps*u_tau = u_xx + (v-u) for the weighted integrands', [eps * Ut, -Uxx, -Wv]),
+               (tag + 'v_tau = u - v for the weighted integrands', [Ut, Wt, Wv])]
+        if self.fam == 2:
+            # both integrands carry the same sin and exp atoms: z3 decides the residuals directly
+            for label, adds in pde:
+                cx.zero(label, adds)
+        else:
+            lemma_chain(cx, tag, pde, U(cx), Wv)
         cx.eq(tag + 'vsolution adds its integrals to exactly one copy of u', cx['v:c_uans'], 1)
+
+
+def lemma_chain(cx, tag, pde, Uv, Wv):
+    """Family 1: the u- and v-integrands are written in different variables, so their sin / exp atoms have
+    syntactically different arguments.  z3 is led through the proof in steps, every step a claim of its own:
+      L1  phase of the v-integrand == phase of the u-integrand          (on the circle)
+      L2  decay exponent of the v-integrand == that of the u-integrand
+      L3  with the v-atoms replaced by the u-atoms (justified by L1, L2), every addend of a residual is
+          sin * exp * (addend with sin -> 1, exp -> 1)
+      L4  the residuals of those amplitudes vanish
+      final  the residual of the ORIGINAL terms vanishes, given function congruence for sin/exp/arccos
+             (tautologies) and the equalities L3, L4 proved just before on the same path.
+    Numeric replay: L4 and the final step are both replayed as the finite-difference residual of the real
+    weighted integrands; L1-L3 have no numeric twin (a witness for them is reported inconclusive)."""
+    if not cx.symbolic:
+        for label, adds in pde:
+            cx.zero(label + ' [amplitudes]', adds)
+            cx.zero(label, adds)
+        return
+    su, sw = _fn_nodes([term_of(Uv)], 'sin'), _fn_nodes([term_of(Wv)], 'sin')
+    eu, ew = _fn_nodes([term_of(Uv)], 'exp'), _fn_nodes([term_of(Wv)], 'exp')
+    ok = len(su) == len(sw) == len(eu) == len(ew) == 1
+    cx.true(tag + 'each integrand is amplitude * one exp * one sin', ok)
+    if not ok:
+        return
+    su, sw, eu, ew = su[0], sw[0], eu[0], ew[0]
+    cx.eq(tag + 'L1 phases agree on the circle', SymReal(sw.args[1]), SymReal(su.args[1]),
+          when=congruence(cx, [SymReal(sw), SymReal(su)], names=('arccos',)))
+    cx.eq(tag + 'L2 decay exponents agree on the circle', SymReal(ew.args[1]), SymReal(eu.args[1]))
+    unify = {sw: su, ew: eu}
+    strip = {su: T.ONE, eu: T.ONE}
+    SE = T.mul(su, eu)
+    hyp = []
+    for label, adds in pde:
+        amps = []
+        for i, a in enumerate(adds):
+            a1 = T.substitute(term_of(a), unify)
+            amp = T.substitute(a1, strip)
+            fact = T.eq(a1, T.mul(SE, amp))
+            cx.true(label + ' L3 addend %d = sin*exp*amplitude' % i, SymBool(fact))
+            hyp.append(fact)
+            amps.append(SymReal(amp))
+        cx.zero(label + ' [amplitudes]', amps)
+        tot = T.ZERO
+        for a in amps:
+            tot = T.add(tot, term_of(a))
+        hyp.append(T.eq(tot, T.ZERO))
+    cong = congruence(cx, [Uv, Wv])
+    w = SymBool(T.land(*([cong.t] if cong is not None else []) + hyp))
+    for label, adds in pde:
+        cx.zero(label, adds, when=w)
 
 
 class Marshak(Kernel):
